@@ -1,4 +1,5 @@
 """Property table and the generic check driver."""
+import re
 import os, sys, time, json, collections, hashlib
 import vlib, k1, k1lib, gen
 
@@ -13,6 +14,10 @@ def modelled():
 # compared.  `force`: traits always educed; `pool`: traits that may be added (cross-talk);
 # `kinds`: struct / enum / union; `faults`: share of inputs carrying one invalid construct.
 # ---------------------------------------------------------------------------------------------
+C19_KEYWORDS = {'if', 'return', 'while', 'match', 'else', 'in', 'let', 'mut', 'ref', 'move', 'as', 'break', 'continue', 'unsafe', 'loop'}
+C19_PRELUDE = {'Option', 'Some', 'None', 'Ok', 'Err', 'Result', 'Vec', 'String', 'Box', 'Into', 'From', 'Default', 'Clone', 'Copy', 'Hash', 'Hasher',
+               'Debug', 'PartialEq', 'Eq', 'PartialOrd', 'Ord', 'Ordering', 'Formatter', 'Deref', 'DerefMut', 'Sized', 'Send', 'Sync', 'Drop', 'Fn',
+               'Iterator', 'ToString', 'ToOwned', 'AsRef', 'AsMut', 'bool', 'u8', 'str', 'usize', 'isize', 'i128'}
 def stream(name, view, force=(), pool=None, kinds=('struct', 'enum', 'union'), faults=0.1,
            n=(1500, 30000), errkind=True):
     return dict(name=name, view=view, force=list(force), pool=pool, kinds=tuple(kinds), faults=faults,
@@ -45,6 +50,7 @@ PROPS = {
         streams=[stream('ordenum', 'items:PartialOrd,Ord', force=['Ord'], kinds=('enum',), n=(1000, 20000)),
                  stream('pordenum', 'items:PartialOrd,Ord', force=['PartialOrd'], kinds=('enum',), n=(1000, 20000))],
         k2=['ordlayout'], k2_n=(100, 800),
+        k2_also=[('ord', 'EnumOrdering', (120, 700))],
         direct=[('c04', (1, 1)), ('rejections', (1500, 15000), dict(pool=['PartialOrd', 'Ord', 'PartialEq', 'Eq'], must=[('PartialOrd', 'Ord')], kinds=('enum',), key='c04r'))],
     ),
     'C05': dict(
@@ -257,6 +263,26 @@ def run_k1(st, seed, n, report, stats, samples):
                                 'the expansion of this input names `::%s`: it cannot compile in a #![no_std] crate (…%s…)' % (toks[j + 2], ' '.join(toks[max(0, j - 6):j + 12])),
                                 dict(input=c.rust()), found_input=True)
                     break
+        if report.pid == 'C19' and cls[0] == 'OK':
+            # a direct oracle on the REAL tokens: a macro invoked, or a prelude item named, without an absolute path
+            # (and not written by the user in the input) is resolved at the derive site
+            toks, src = cls[2], c.rust()
+            for j in range(len(toks) - 2):
+                t = toks[j]
+                if not (t[0].isalpha() or t[0] == '_') or (j >= 2 and toks[j - 1] == ':' and toks[j - 2] == ':'):
+                    continue
+                if toks[j + 1] == '!' and toks[j + 2] in ('(', '[', '{') and t not in C19_KEYWORDS:
+                    what = 'invokes the macro `%s!` without an absolute path' % t
+                elif t in C19_PRELUDE and not (j >= 1 and toks[j - 1] == '.'):
+                    what = 'names the prelude item `%s` without an absolute path' % t
+                else:
+                    continue
+                if re.search(r'\b%s\b' % re.escape(t), src):
+                    continue        # the user's own tokens
+                report.fail('c19:unqualified:' + hashlib.sha256(src.encode()).hexdigest()[:12],
+                            'the expansion of this input %s: a derive site that shadows it captures it (…%s…)' % (what, ' '.join(toks[max(0, j - 8):j + 8])),
+                            dict(input=src), found_input=True)
+                break
         if v == 'diff':
             report.k1_diffs.append(dict(stream=st['name'], case=i, input=c.rust(), detail=d))
         if v == 'ood':
